@@ -59,7 +59,7 @@ BUDGET = {"quick": 600, "thorough": 5400}
 
 
 def catalogue():
-    names = [f"transform/{n}/{v}" for n in X.ALL for v in ("forward", "forward_after_data_", "inverse", "inverse_linked_views", "disp", "disp_resized", "disp_other", "points_world", "warp_image", "warp_other_grids", "pointset_transformer")]
+    names = [f"transform/{n}/{v}" for n in X.ALL for v in ("forward", "forward_after_data_", "forward_after_no_grad_call", "forward_after_backward", "forward_in_eval_mode", "inverse", "inverse_linked_views", "disp", "disp_resized", "disp_other", "points_world", "warp_image", "warp_other_grids", "pointset_transformer")]
     names += [f"fn/{n}" for n in FUNCS] + [f"loss/{n}" for n in LOSSES]
     return names
 
@@ -251,6 +251,26 @@ def transform_op(ctx, name, rep, info):
         t.update()
     x = t64(rng.uniform(-0.7, 0.7, size=(groups, 7, D)))
     if variant == "forward":
+        ev = lambda: t(x)  # noqa: E731
+    elif variant == "forward_after_no_grad_call":
+        # validation pass first (no graph), then the training evaluation: the graph must be built now
+        t.clear_buffers()  # as after construction or data_(): nothing is cached when the validation pass runs
+        with torch.no_grad():
+            t(x)
+            if hasattr(t, "disp"):
+                t.disp()
+        ev = lambda: t(x)  # noqa: E731
+    elif variant == "forward_after_backward":
+        # an earlier training evaluation was back-propagated (its graph is freed); the parameters did not change since
+        t(x).square().sum().backward()
+        for p in params:
+            p.grad = None
+        ev = lambda: t(x)  # noqa: E731
+    elif variant == "forward_in_eval_mode":
+        # eval() switches layers such as dropout / batch norm; a transformation stays differentiable in either mode
+        t.eval()
+        if not ctx.true("eval_mode_is_set", not t.training and all(not m.training for m in t.modules()), key=f"grad/{name}/mode", **info):
+            return
         ev = lambda: t(x)  # noqa: E731
     elif variant == "forward_after_data_":
         # setters replace the parameter object (data_, and through it offset_/angles_/... and grid_): the new one
